@@ -21,6 +21,7 @@ import (
 	"path/filepath"
 	"strings"
 	"sync"
+	"syscall"
 	"time"
 
 	"github.com/influxdata/influxdb/services/meta"
@@ -196,6 +197,34 @@ func (w *worker) kill() {
 	w.cmd.Process.Kill()
 	w.stdin.Close()
 	<-w.exited
+}
+
+// dump makes a process that is alive but not answering print all its
+// goroutines (SIGQUIT) and returns them once it has ended.
+func (w *worker) dump() string {
+	w.cmd.Process.Signal(syscall.SIGQUIT)
+	if !w.died(30 * time.Second) {
+		w.kill()
+	}
+	b, _ := os.ReadFile(w.errLog)
+	return string(b)
+}
+
+// nestedRLockDeadlock recognises, in a goroutine dump, the start-up deadlock
+// of the store: store.peers() holds s.mu.RLock and calls store.leader(), which
+// takes s.mu.RLock again, while storeFSM.Apply waits in s.mu.Lock between the
+// two (a pending writer blocks new readers).
+func nestedRLockDeadlock(dump string) bool {
+	reader, writer := false, false
+	for _, g := range strings.Split(dump, "\n\n") {
+		if strings.Contains(g, "services/meta.(*store).leader") && strings.Contains(g, "services/meta.(*store).peers") && strings.Contains(g, "RWMutex).RLock") {
+			reader = true
+		}
+		if strings.Contains(g, "services/meta.(*storeFSM).Apply") && strings.Contains(g, "RWMutex).Lock") {
+			writer = true
+		}
+	}
+	return reader && writer
 }
 
 // crashReport returns the Go crash report of the last process (from its
